@@ -666,13 +666,14 @@ fn gpos_subtables(s: &mut Session, cx: &mut Ctx, g: &mut Rng, l: &str) {
         &CursivePosFormat1::new(coverage(g), vec_of(g, n, |g| EntryExitRecord::new(g.chance(1, 2).then(|| anchor(g)), g.chance(1, 2).then(|| anchor(g))))));
     let nm = len(g);
     let nb = len(g);
-    // mark_class_count is computed from the mark records (max class + 1): base records must have that many anchors
-    let classes = if nm == 0 { 0 } else { 1 + g.below(3) as usize };
+    // mark_class_count is computed as the number of *distinct* classes of the mark records: base records must have
+    // that many anchors and the class ids must be dense (0..count) for the value to be well-formed
+    let classes = if nm == 0 { 0 } else { (1 + g.below(3) as usize).min(nm) };
     // zero-size records (no mark class) do not read back (same degenerate case as the empty-value-records probe)
     let nb = if classes == 0 { 0 } else { nb };
-    let mut marks = vec_of(g, nm, |g| MarkRecord::new(g.below(classes.max(1) as u64) as u16, anchor(g)));
-    if let Some(m) = marks.last_mut() {
-        m.mark_class = (classes - 1) as u16;
+    let mut marks = vec_of(g, nm, |g| MarkRecord::new(0, anchor(g)));
+    for (i, m) in marks.iter_mut().enumerate() {
+        m.mark_class = if i < classes { i as u16 } else { g.below(classes as u64) as u16 };
     }
     rt!(s, cx, "MarkBasePosFormat1", MarkBasePosFormat1, r::gpos::MarkBasePosFormat1, l,
         &MarkBasePosFormat1::new(
